@@ -23,7 +23,9 @@ ASSUMPTIONS = ["the abstraction alpha (spec -> Validate.input) is computed by th
                "acyclic / has-source / conservation flags are recomputed independently of flowpaths",
                "c_greedy_ok and search_enters are read off the implementation's own un-modelled algorithms (max-bottleneck "
                "greedy, width lower bound); they only matter on code paths after validation",
-               "one solver thread count (threads=1) per process"]
+               "one solver thread count (threads=1) per process; HiGHS time limit 4 s (a time-out only turns solved into unsolved)",
+               "inside the region of finding #20 (source/sink test fooled) the comparison is loosened: any crash-like outcome "
+               "(not ValueError, not solved) counts as agreement, because the fooled graph also mis-classifies edges as source edges"]
 TRUSTED = ["model: coq/theories/Validate.v; proofs ValidateProofs.v"]
 
 # ------------------------------------------------------------------------------------------ abstraction
@@ -139,7 +141,20 @@ def observed_outcome(r):
     return "UNSOLVED"
 
 
-def agrees(model_out, obs):
+def is_fooled(spec, a):
+    """DESIGN #20 region: stDiGraph's source/sink test is fooled by a single-character node name"""
+    if spec["cls"] not in ci.IS_CYC or spec["origin"] == "node":
+        return False
+    lb_only = spec["cls"] in ("MinFlowDecompCycles", "MinPathCoverCycles")
+    st = spec["starts"]; en = spec["ends"]
+    return bool((not a["has_source"] and not st and a["src_fooled"]) or (not a["has_sink"] and not en and a["snk_fooled"]))
+
+
+def agrees(model_out, obs, fooled=False):
+    if fooled and obs not in ("ValueError", "SOLVED", "ACCEPT") and model_out != "ACCEPT":
+        # inside the #20 region the out-edges of the single-character node are silently treated as source edges (and thereby
+        # ignored), so a weight violation on them goes unnoticed before the crash: any crash-like outcome is an instance of #20
+        return True
     if model_out == "ACCEPT":
         return obs in ("ACCEPT", "SOLVED", "UNSOLVED")
     if model_out == "UNSOLVED":
@@ -306,7 +321,7 @@ def check_case(ctx, stream, cls, idx, viols, spec, a, req, out, r):
             ctx.report("generator / model mismatch: in_domain_%s is true on an input with violations %s" % (cls, viols), replay, concrete=False)
             return True
     # (2) correspondence with the faithful model
-    if agrees(model_out, obs):
+    if agrees(model_out, obs, is_fooled(spec, a)):
         ctx.count("E3_validate", "agreements")
     else:
         ctx.count("E3_validate", "disagreements")
@@ -326,4 +341,4 @@ def replay(ctx, body):
     obs = observed_outcome(r)
     print("observed now:", r, "->", obs, "| model:", out)
     bad = (obs != "ValueError") if body["violations"] else bool(r["ctor"] or r["solve"])
-    return bad or not agrees(out.split()[0], obs)
+    return bad or not agrees(out.split()[0], obs, is_fooled(spec, a))
